@@ -12,9 +12,9 @@
     [trace headers ++ lf_norm body]: the only thing that changes are line endings.
 
     The message's bytes travel through the abstract store behind a tag; [content (tag_of d) = src d] is the
-    premise that names them, asked only of the dialogue's own deliveries (the store models keep content opaque: StoreSpec never looks inside a message).  Sizes are
-    not part of this statement ([add_op] records the body length, the real stores the length of the stored source; the
-    size clause of [read_interfaces_agree_on_source] keeps its own premise).  What stays outside, as everywhere: the
+    premise that names them, asked only of the dialogue's own deliveries (the store models keep content opaque: StoreSpec never looks inside a message).  The size clause is in
+    Proofs/EndToEndSize.v ([add_op] here records the body length, the real stores the length of the stored source: that file
+    shows the difference is the size field alone and states the theorem with the sizes the stores record).  What stays outside, as everywhere: the
     transport glue (net/http, the POP3 line writer's connection), covered by the differential runs of C02. *)
 From Coq Require Import List NArith ZArith Lia.
 From IV Require Import Base.Bytes Base.BytesFacts Model.Policy Model.Smtp Model.Dot Model.SmtpWire Model.StoreSpec.
